@@ -78,3 +78,115 @@ Definition chk_conv (c : rawcase) : float :=
   let dv := devs dev_pt v (lnth (out c) 0) in
   let de := devs dev_pt e (lnth (out c) 1) in
   match znth (zs c) 4 with 0%Z => dv | 1%Z => de | _ => fmax dv de end.
+
+(* ================= transforms ================= *)
+From PyStoG Require Import TransformerM.
+
+Definition fabs := PrimFloat.abs.
+Definition tiny : float := 0x1p-1000.
+
+(* sum |dx| (|y1|+|y0|)/2 : magnitude of the terms of a trapezoid sum *)
+Fixpoint atrapz (xs ys : list float) : float :=
+  match xs, ys with
+  | x0 :: ((x1 :: _) as xs'), y0 :: ((y1 :: _) as ys') =>
+      (fabs (x1 - x0) * (fabs y1 + fabs y0) / 2 + atrapz xs' ys')%float
+  | _, _ => 0%float
+  end.
+
+(* magnitude of the terms of the low-x correction at one output point *)
+Definition low_x_scale (lorchf : bool) (xmin xmax yin0 x : float) : float :=
+  (let s0 := fabs (yin0 / xmin) + 1 in
+   let a := piF / xmax in
+   let v := xmin * x in
+   if lorchf then
+     let vm := xmin * (x - a) in let vp := xmin * (x + a) in
+     let t1 := (fabs vm + 2) / ((x - a) * (x - a)) in
+     let t2 := (fabs vp + 2) / ((x + a) * (x + a)) in
+     (t1 + t2) / (2 * a) * s0 / fabs xmin + (1 / fabs (x - a) + 1 / fabs (x + a)) / (2 * a)
+   else
+     (2 * fabs v + fabs (v * v - 2) + 2) / fabs (x * x * x) * s0 / fabs xmin
+     + (1 + fabs v) / (x * x))%float.
+
+(* per-output-point magnitudes for fourier_transform: values, uncertainties *)
+Definition ft_scales (xin yin xout : list float) (xmin xmax : option float)
+    (dy : option (list float)) (k : kw float) : list float * list float :=
+  let xmax' := match xmax with Some v => v | None => vmax xin end in
+  let xmin' := match xmin with Some v => v | None => vmin xin end in
+  let '(xc, yc, ec) := apply_cropping xin yin xmin' xmax' dy in
+  let factor := if lorch k then lorch_factor xmax' xc else ones_like yc in
+  let fy := vmul factor yc in
+  let fe := vmul factor ec in
+  let sv := atrapz xc fy in
+  let se := PrimFloat.sqrt (etrapz xc (map (fun e => e * e)%float fe)) in
+  (map (fun x => if omitted k
+                 then (sv + low_x_scale (lorch k) (vmin xc) (vmax xc) (hd 0%float yc) x)%float
+                 else sv) xout,
+   map (fun _ => se) xout).
+
+Definition dev_sc (a b s : float) : float := dev1 (s + tiny)%float a b.
+Definition devs3 (l m s : list float) : float :=
+  (fix go l m s := match l, m, s with
+    | [], [], _ => 0%float
+    | a :: l, b :: m, c :: s => fmax (dev_sc a b c) (go l m s)
+    | _, _, _ => PrimFloat.infinity end) l m s.
+Definition dev_exact (a b : float) : float := dev1 tiny a b.
+
+Definition opt_f (has : Z) (v : float) : option float := if Z.eqb has 0 then None else Some v.
+Definition sel_channel (ch : Z) (dx dv de : float) : float :=
+  match ch with 0%Z => fmax dx dv | 1%Z => fmax dx de | _ => fmax dx (fmax dv de) end.
+
+(* ---- fourier_transform (C02, C07, C13, C14, C15)
+   fl = [xin; yin; dy; xout]  sc = [xmin; xmax]
+   zs = [has_xmin; has_xmax; has_dy; lorch; omitted; channel]  out = [xout; yout; eout] *)
+Definition chk_ft (c : rawcase) : float :=
+  let z := zs c in
+  let k := mkkw [1; 1; 1]%float (znth z 3) (znth z 4) in
+  let xin := lnth (fl c) 0 in let yin := lnth (fl c) 1 in let xout := lnth (fl c) 3 in
+  let dy := opt_dy (znth z 2) (lnth (fl c) 2) in
+  let xmin := opt_f (znth z 0) (fnth (sc c) 0) in
+  let xmax := opt_f (znth z 1) (fnth (sc c) 1) in
+  let '(xo, yo, eo) := fourier_transform xin yin xout xmin xmax dy k in
+  let '(sv, se) := ft_scales xin yin xout xmin xmax dy k in
+  sel_channel (znth z 5)
+    (devs dev_exact xo (lnth (out c) 0))
+    (devs3 yo (lnth (out c) 1) sv)
+    (devs3 eo (lnth (out c) 2) se).
+
+(* ---- apply_cropping (C13): fl = [x; y; dy] sc = [xmin; xmax] zs = [has_dy] out = [x'; y'; e'] *)
+Definition chk_crop (c : rawcase) : float :=
+  let '(x, y, e) := apply_cropping (lnth (fl c) 0) (lnth (fl c) 1) (fnth (sc c) 0) (fnth (sc c) 1)
+                      (opt_dy (znth (zs c) 0) (lnth (fl c) 2)) in
+  fmax (devs dev_exact x (lnth (out c) 0))
+       (fmax (devs dev_exact y (lnth (out c) 1)) (devs dev_exact e (lnth (out c) 2))).
+
+(* ---- the 24 named transforms (C01, C05, C15)
+   fl = [xin; yin; dy; xout]  sc = [rho; bcoh; btot]
+   zs = [dir; X; Y; has_dy; lorch; omitted; channel]   out = [xout; y; e]
+   The scale of each output entry is obtained by pushing the magnitude of the
+   quadrature terms through the same (affine) post-conversion. *)
+Definition chk_named (c : rawcase) : float :=
+  let z := zs c in
+  let k := mkkw (sc c) (znth z 4) (znth z 5) in
+  let xin := lnth (fl c) 0 in let yin := lnth (fl c) 1 in let xout := lnth (fl c) 3 in
+  let dy := opt_dy (znth z 3) (lnth (fl c) 2) in
+  let q2rdir := Z.eqb (znth z 0) 0 in
+  let '(xo, yo, eo) :=
+    if q2rdir then q2r (rfun_of (znth z 1)) (gfun_of (znth z 2)) xin yin xout dy k
+    else r2q (gfun_of (znth z 1)) (rfun_of (znth z 2)) xin yin xout dy k in
+  (* scales *)
+  let '(py, pe) :=
+    if q2rdir then rconv (rfun_of (znth z 1)) rF xin yin dy k
+    else gconv (gfun_of (znth z 1)) gG xin yin dy k in
+  let '(_, T, E) := fourier_transform xin py xout None None (Some pe) k in
+  let '(sv, se) := ft_scales xin py xout None None (Some pe) k in
+  let c0 := if q2rdir then two_over_pi else 1%float in
+  let T := vscale_r c0 T in
+  let T2 := vadd T (vscale_r c0 sv) in
+  let post := if q2rdir then gconv gG (gfun_of (znth z 2)) else rconv rF (rfun_of (znth z 2)) in
+  let '(v1, _) := post xout T (Some (vscale_r c0 se)) k in
+  let '(v2, e2) := post xout T2 (Some (vscale_r c0 se)) k in
+  let scv := map2 (fun a b => fabs (a - b)%float) v2 v1 in
+  sel_channel (znth z 6)
+    (devs dev_exact xo (lnth (out c) 0))
+    (devs3 yo (lnth (out c) 1) scv)
+    (devs3 eo (lnth (out c) 2) e2).
